@@ -22,8 +22,8 @@ def sh(cmd, cwd=None, env=None, timeout=3600):
     return p.returncode, p.stdout
 
 
-def do_import(pid, wt):
-    dst = os.path.join(VERIF, "seeded", pid)
+def do_import(pid, wt, name=None):
+    dst = os.path.join(VERIF, "seeded", name or pid)
     os.makedirs(dst, exist_ok=True)
     for f in ("patch.diff", "demo.py", "meta.json"):
         shutil.copy(os.path.join(wt, "SEED", f), os.path.join(dst, f))
@@ -39,6 +39,7 @@ def do_run(pid):
     meta = json.load(open(os.path.join(d, "meta.json")))
     prop = meta.get("property", pid)[:3]
     wt = f"/tmp/seedrun_{pid}"
+    demo_wt_name = wt
     sh(f"git -C /repo worktree remove --force {wt}")
     rc, out = sh(f"git -C /repo worktree add -q --detach {wt} HEAD")
     res = {"repo_head": sh("git -C /repo log --format=%h -1")[1].strip()}
@@ -74,7 +75,7 @@ def do_run(pid):
 
 if __name__ == "__main__":
     if sys.argv[1] == "import":
-        do_import(sys.argv[2], sys.argv[3])
+        do_import(sys.argv[2], sys.argv[3], sys.argv[4] if len(sys.argv) > 4 else None)
     else:
         ids = sorted(os.listdir(os.path.join(VERIF, "seeded"))) if sys.argv[2] == "all" else sys.argv[2:]
         for pid in ids:
